@@ -2,7 +2,8 @@
 From Coq Require Import QArith Qabs ZArith List Arith Bool.
 Import ListNotations.
 From PD Require Import Model.Grid Model.Render Model.RenderSym Model.Locate Model.LocateSym Model.Ball Model.Overlap
-  Proofs.LocateCart Proofs.BallLift Proofs.C01 Model.Label Proofs.LabelClients.
+  Proofs.LocateCart Proofs.BallLift Proofs.C01 Model.Label Proofs.LabelClients Model.Totality
+  Proofs.Components Proofs.C01Cyl Proofs.C01Multi Proofs.BallCount.
 Local Open Scope Q_scope.
 
 (* ===== Cartesian grids of any dimension =====
@@ -71,6 +72,52 @@ Theorem C01_cartesian_periodic_single : forall g c r lab,
                  (aper a = true -> alo a <= pk /\ pk < ahi a).
 Proof. exact c01_periodic_single. Qed.
 Print Assumptions C01_cartesian_periodic_single.
+
+(* several droplets on a grid with ANY mix of periodic axes, pairwise separated under the PERIODIC squared distance:
+   one candidate per original, exact volume, centre within half a spacing under the periodic metric, inside the bounds *)
+Theorem C01_cartesian_periodic_emulsion : forall g (ds : list sphere) lab hmax,
+  let img := mk_limage (gshape g) lab in
+  grid_ok g ->
+  (forall d, In d ds -> pfits g (fst d) (snd d)) ->
+  (forall d, In d ds -> ball_cells g (fst d) (snd d) <> []) ->
+  0 <= hmax -> Forall (fun a => adisc a <= hmax) g ->
+  (forall i j di dj, nth_error ds i = Some di -> nth_error ds j = Some dj -> i <> j ->
+     (snd di + snd dj + hmax) * (snd di + snd dj + hmax) <= dist2 g (fst di) (fst dj)) ->
+  wf_img g img -> LabelSpecImg img -> mask_is_emulsion g ds img ->
+  length (candidates g lab) = length ds /\
+  exists cidx : nat -> nat,
+    (forall i, (i < length ds)%nat -> (cidx i < length ds)%nat) /\
+    (forall i j, (i < length ds)%nat -> (j < length ds)%nat -> cidx i = cidx j -> i = j) /\
+    forall i d, nth_error ds i = Some d ->
+      exists pos vol, nth_error (candidates g lab) (cidx i) = Some (pos, vol) /\
+        vol == cell_volume g * inject_Z (Z.of_nat (length (ball_cells g (fst d) (snd d)))) /\
+        length pos = length g /\
+        forall k a x, nth_error g k = Some a -> nth_error (fst d) k = Some x ->
+          exists pk, nth_error pos k = Some pk /\ Qabs (diff1 a x pk) <= adisc a / 2 /\
+                     (aper a = true -> alo a <= pk /\ pk < ahi a).
+Proof. exact c01_multi_periodic. Qed.
+Print Assumptions C01_cartesian_periodic_emulsion.
+
+(* the digitised ball has at most prod (2 r / h_i + 1) cells: its volume is at most that of its bounding box
+   (any periodicity); with C01Sep.v (over the reals) this gives D i j >= 0, the premise of C01_no_removal *)
+Theorem C01_ball_count_bound : forall g c r, grid_ok g -> length c = length g -> 0 <= r ->
+  inject_Z (Z.of_nat (length (ball_cells g c r))) * cell_volume g <= boxvol g r.
+Proof. exact ball_count_bound. Qed.
+Print Assumptions C01_ball_count_bound.
+
+(* ===== cylindrical grids (non-periodic path): an on-axis droplet inside the z range =====
+   img: label image of the rendered (r, z) image on the 2-d grid cyl_axes g (same oracle premises as above) *)
+Theorem C01_cylindrical_single : forall (g : cylgrid) c rad img_pad img,
+  cg_per g = false -> cyl_ok g -> cg_zlo g <= c - rad -> c + rad <= cg_zhi g ->
+  cyl_cells g c rad <> [] ->
+  wf_img (cyl_axes g) img -> LabelSpecImg img ->
+  (forall idx, LocateCart.in_range [cg_nr g; cg_nz g] idx ->
+     (lab_of img idx <> 0%nat <-> cyl_inside g c rad (ridx idx) (zidx idx) = true)) ->
+  exists z v, cyl_candidates g img_pad img = [(z, v)] /\
+    v == Components.lsum (cyl_cells g c rad) (fun p => shell g (ridx p)) /\
+    Qabs (z - c) <= cg_dz g / 2.
+Proof. exact c01_cyl_candidates. Qed.
+Print Assumptions C01_cylindrical_single.
 
 (* ===== end to end: render (Model/Render.v), label (Model/Label.v, proved to meet the specification of
    scipy.ndimage.label), locate -- no oracle premise left ===== *)
